@@ -5,13 +5,15 @@
 -/
 import Vlsp.Model.Bump
 import Vlsp.Model.Slice
+import Vlsp.Model.Pos
 
 namespace Vlsp
 open Text Slice
 
 namespace Bump
 
-def locate (content : Text) (p : PkgInfo) : Option PkgInfo :=
+/-- the first step: the version text inside the token (byte offsets and byte column) -/
+def locateBytes (content : Text) (p : PkgInfo) : Option PkgInfo :=
   if p.commitHash.isSome then some p          -- hash-pinned actions are rewritten as a whole
   else
     match slice content p.startOffset p.endOffset with
@@ -20,6 +22,14 @@ def locate (content : Text) (p : PkgInfo) : Option PkgInfo :=
       match rfind? p.version token with
       | none => none
       | some k => some { p with startOffset := p.startOffset + k, column := p.column + k }
+
+/-- the second step: the column in the client's units (UTF-16), when the offsets fit the document -/
+def toClientColumn (content : Text) (q : PkgInfo) : PkgInfo :=
+  match Pos.utf16Span content q.column q.startOffset q.endOffset with
+  | some (c, _) => { q with column := c }
+  | none => q
+
+def locate (content : Text) (p : PkgInfo) : Option PkgInfo := (locateBytes content p).map (toClientColumn content)
 
 /-- the packages the code-action handler works with -/
 def locateAll (content : Text) (pkgs : List PkgInfo) : List PkgInfo := pkgs.filterMap (locate content)
